@@ -598,3 +598,200 @@ def str_list(name):
     lb = ListBase(name, lambda i: sb.whole(i))
     lb.strbase = sb
     return lb
+
+
+# --------------------------------------------------------------------------------------------------------------------
+# dicts with abstract keys and values (option stores): dom: Array(Int,Bool), val: Array(Int,Int)
+
+_KEY_IDS: dict = {}
+
+
+def key_id(k):
+    """concrete hashable key -> distinct integer id (>= 1000); symbolic keys are arbitrary ints"""
+    if isinstance(k, (SInt,)):
+        return k
+    if k not in _KEY_IDS:
+        _KEY_IDS[k] = 1000 + len(_KEY_IDS)
+    return SInt(z3.IntVal(_KEY_IDS[k]))
+
+
+class SVal:
+    """Abstract value identified by an integer term (identity semantics: two values are the same iff ids equal)."""
+    __slots__ = ('e',)
+
+    def __init__(self, e):
+        self.e = e
+
+    def _sym_eq(self, o):
+        if isinstance(o, SVal):
+            return _wrap_bool(self.e == o.e)
+        return False
+
+    def __repr__(self):
+        return f'SVal({self.e})'
+
+
+def _note_write():
+    n = cur().notes
+    n['writes'] = n.get('writes', 0) + 1
+
+
+class SDict:
+    def __init__(self, name, dom=None, val=None):
+        self.name = name
+        self.dom = dom if dom is not None else z3.Array(f'dom_{name}', z3.IntSort(), z3.BoolSort())
+        self.val = val if val is not None else z3.Array(f'val_{name}', z3.IntSort(), z3.IntSort())
+        self.version = 0
+
+    def snapshot(self):
+        return SDict(self.name + "'", self.dom, self.val)
+
+    def has(self, k):
+        return _wrap_bool(z3.Select(self.dom, _z(key_id(k))))
+
+    def value(self, k):
+        return SVal(z3.simplify(z3.Select(self.val, _z(key_id(k)))))
+
+    def _sym_contains(self, k):
+        return self.has(k)
+
+    def _sym_truth(self):
+        """non-empty?  fork on a fresh boolean tied to the domain by instantiation at an arbitrary witness key"""
+        ctx = cur()
+        w = ctx.int(ctx.fresh_name(f'witness_{self.name}'))
+        ne = ctx.bool(ctx.fresh_name(f'nonempty_{self.name}'))
+        if truth(ne):
+            ctx.add(z3.Select(self.dom, w.e))
+            self._witness = w
+            return True
+        self._empty = True
+        self.dom = z3.K(z3.IntSort(), z3.BoolVal(False))
+        return False
+
+    def get(self, k, default=None):
+        if truth(self.has(k)):
+            return self.value(k)
+        return default
+
+    def _sym_getitem(self, k):
+        if truth(self.has(k)):
+            return self.value(k)
+        raise _pyraise(KeyError(str(k)))
+
+    def __getitem__(self, k):
+        return self._sym_getitem(k)
+
+    def _sym_setitem(self, k, v):
+        _note_write()
+        self.version += 1
+        kz = _z(key_id(k))
+        self.dom = z3.Store(self.dom, kz, z3.BoolVal(True))
+        self.val = z3.Store(self.val, kz, _valz(v))
+
+    def _sym_delitem(self, k):
+        if not truth(self.has(k)):
+            raise _pyraise(KeyError(str(k)))
+        _note_write()
+        self.version += 1
+        self.dom = z3.Store(self.dom, _z(key_id(k)), z3.BoolVal(False))
+
+    def update(self, other=None, **kw):
+        _note_write()
+        self.version += 1
+        if isinstance(other, SDict):
+            x = z3.Int('x!upd')
+            self.dom = z3.Lambda([x], z3.Or(z3.Select(self.dom, x), z3.Select(other.dom, x)))
+            self.val = z3.Lambda([x], z3.If(z3.Select(other.dom, x), z3.Select(other.val, x), z3.Select(self.val, x)))
+        elif isinstance(other, dict):
+            for k, v in other.items():
+                self._sym_setitem(k, v)
+        elif other is not None:
+            raise Unsupported('dict.update with this argument')
+        for k, v in kw.items():
+            self._sym_setitem(k, v)
+
+    def copy(self):
+        return SDict(self.name + '_copy', self.dom, self.val)
+
+    def clear(self):
+        _note_write()
+        self.version += 1
+        self.dom = z3.K(z3.IntSort(), z3.BoolVal(False))
+
+    def pop(self, k, *default):
+        if truth(self.has(k)):
+            v = self.value(k)
+            self._sym_delitem(k)
+            return v
+        if default:
+            return default[0]
+        raise _pyraise(KeyError(str(k)))
+
+    def items(self):
+        return SDictIter(self, 'items')
+
+    def keys(self):
+        return SDictIter(self, 'keys')
+
+    def _sym_forall(self):
+        return SDictIter(self, 'keys')._sym_forall()
+
+    def known_nonempty(self):
+        return getattr(self, '_witness', None) is not None
+
+    def same_as(self, other, at=None):
+        """pointwise equality claim at a skolem key"""
+        ctx = cur()
+        k = at if at is not None else ctx.int(ctx.fresh_name('sk_key'))
+        kz = _z(k)
+        r = _wrap_bool(z3.And(z3.Select(self.dom, kz) == z3.Select(other.dom, kz),
+                              z3.Implies(z3.Select(self.dom, kz), z3.Select(self.val, kz) == z3.Select(other.val, kz))))
+        if isinstance(r, SBool):
+            r.pos = True
+        return r
+
+
+def _valz(v):
+    if isinstance(v, SVal):
+        return v.e
+    if isinstance(v, (SInt, SBool, int)):
+        return _z(v) + 0
+    if v is None:
+        return z3.IntVal(-1)
+    return key_id(('val', v if isinstance(v, (str, tuple, frozenset)) else id(v))).e
+
+
+class SDictIter:
+    def __init__(self, d, kind):
+        self.d = d
+        self.kind = kind
+
+    def _elem(self, k):
+        if self.kind == 'items':
+            return (k, self.d.value(k))
+        return k
+
+    def _sym_forall(self):
+        """Elements the for-all rule runs the body for: every *interesting* key that is in the dict (the skolem keys
+        and concrete keys a contract registered in ctx.notes['skolem_keys'] - the real loop visits those too) and
+        finally one fresh arbitrary key.  Yields elements lazily so that the key being processed is known on a raise."""
+        ctx = cur()
+        for c in list(ctx.notes.get('skolem_keys', [])):
+            if truth(self.d.has(c)):
+                ck = c if isinstance(c, SInt) else key_id(c)
+                ctx.notes['forall_current'] = (self.d, c)
+                yield self._elem(ck)
+        k = ctx.int(ctx.fresh_name(f'any_key_{self.d.name}'))
+        ctx.add(z3.Select(self.d.dom, k.e))
+        ctx.notes.setdefault('forall_keys', []).append((self.d, k))
+        ctx.notes['forall_current'] = (self.d, k)
+        yield self._elem(k)
+
+
+def dict_ctor(*a, **kw):
+    if a and isinstance(a[0], SDict):
+        d = a[0].copy()
+        for k, v in kw.items():
+            d._sym_setitem(k, v)
+        return d
+    return dict(*a, **kw)
